@@ -85,7 +85,7 @@ func (impl Implementation) Dggsvp3(jobU, jobV, jobQ lapack.GSVDJob, m, p, n int,
 	case ldq < 1, wantq && ldq < n:
 		panic(badLdQ)
 	case len(iwork) != n:
-		panic(shortWork)
+		panic(shortIWork)
 	case lwork < 1 && lwork != -1:
 		panic(badLWork)
 	case len(work) < max(1, lwork):
